@@ -65,6 +65,14 @@ deriving Repr, DecidableEq
 /-- `initialize(min,max)` accepts exactly these -/
 def Cfg.ok (c : Cfg) : Bool := decide (c.min ≤ c.max) && decide (0 < c.max)
 
+/-- `initialize(ssize_t min, ssize_t max)` as written: the test is made on the SIGNED arguments, before they are
+stored into the `size_t` members (tools/narrowing/C05.txt: thread_pool.cpp:127,128) -/
+def Cfg.okI (mn mx : Int) : Bool := !(decide (mx < 0) || decide (mn < 0) || decide (mn > mx) || decide (mx = 0))
+
+/-- `execute(…, int prio)`: clamp, THEN add THREAD_POOL_PRIO_MAX — the `int` → `size_t` conversion at
+`undo_tasks_token.at(level)` (thread_pool.cpp:177) -/
+def clampPrio (prio : Int) : Int := if prio < -2 then -2 else if prio > 2 then 2 else prio
+
 def Cfg.asFound (min max : Nat) : Cfg :=
   { min := min, max := max, fixA := false, fixB := false, fixC := false, fixD := false, fixE := false }
 
@@ -191,6 +199,7 @@ def afterPred (s : State) (w : Nat) : State :=
 inductive Step where
   -- loop thread
   | execute (prio : Int) (cb : Bool)
+  | executeF (prio : Int) (cb : Bool)   -- execute() whose createWorker() FAILS (pthread_create answers EAGAIN): spawn oracle "no"
   | cancel (t : Nat)
   | status (t : Nat)
   | snapshot
@@ -224,6 +233,7 @@ def noWaiter (s : State) : Bool := (List.range s.nW).all (fun w => s.pc w != .wa
 
 def valid (s : State) : Step → Bool
   | .execute _ _ => !s.lock && !inCleanup s
+  | .executeF _ _ => !s.lock && !inCleanup s && !s.done && decide (s.undo.length + 1 > s.idle) && decide (s.cab.length < s.cfg.max)
   | .cancel t => !s.lock && !inCleanup s && decide (t < s.nextTask)
   | .status t => !s.lock && !inCleanup s && decide (t < s.nextTask)
   | .snapshot => !s.lock && !inCleanup s
@@ -259,6 +269,12 @@ def step (s : State) : Step → State
         setPc { s1 with cab := s1.cab ++ [s1.nW], nW := s1.nW + 1 } s1.nW .start     -- createWorker
       else { s1 with peak := if s1.peak < s1.undo.length then s1.undo.length else s1.peak }
     else s1
+  | .executeF prio cb =>
+    -- repaired code (patches/C05-06): createWorker() reports the failure and leaves no cabinet slot behind;
+    -- with no worker at all the task is withdrawn and a null token returned (the caller is told),
+    -- otherwise it stays queued for the existing workers and notify_one() is still called
+    if s.cab.isEmpty then s
+    else { s with undo := s.undo ++ [{ id := s.nextTask, lvl := levelOf prio, cb := cb }], nextTask := s.nextTask + 1, pend := s.pend + 1 }
   | .cancel id =>
     match cancelAns s id with
     | 0 => { s with undo := removeId s.undo id, cancelled := id :: s.cancelled }
@@ -321,6 +337,14 @@ def step (s : State) : Step → State
       else if s.cfg.fixC then setPc s w .leaving
       else setPc { s with loopQ := s.loopQ ++ [.joinNull], crashed := true } w .leaving   -- TBOX_ASSERT aborts
   | .threadEnd w => setPc s w .exited
+
+/-- the code AS FOUND when createWorker() fails inside execute(): `new std::thread` throws std::system_error, the
+exception leaves execute() through the lock_guard — the task is already queued (the caller gets no token), nobody
+is notified (`pend` unchanged), and `threads_cabinet.alloc()` has handed out a slot that holds no thread: the slot
+is counted by `threads_cabinet.size()` and cleanup() calls `join()` on its null pointer. -/
+def executeFAsFound (s : State) (prio : Int) (cb : Bool) : State :=
+  { s with undo := s.undo ++ [{ id := s.nextTask, lvl := levelOf prio, cb := cb }], nextTask := s.nextTask + 1,
+           cab := s.cab ++ [s.nW], nW := s.nW + 1 }
 
 /-- run a step list; `none` as soon as a step is not enabled in the current state -/
 def exec (s : State) : List Step → Option State
